@@ -5,7 +5,7 @@
    form is clean text". *)
 From Coq Require Import Lia ZArith List Bool.
 From Schwifty Require Import Lib.Base Lib.Lit Model.Clean Model.Data Model.Iban Model.Bban Model.Generate Model.Random.
-From Schwifty Require Import Spec.Iso13616 Proofs.CleanFacts Proofs.PlaceFacts Proofs.GenerateFacts Proofs.RandomGen.
+From Schwifty Require Import Spec.Iso13616 Proofs.CleanFacts Proofs.PlaceFacts Proofs.GenerateFacts Proofs.RandomGen Proofs.RandomTotal.
 From Schwifty Require Import Gen.Env Gen.IbanData Gen.IbanCfg Gen.Banks.
 Import ListNotations.
 
@@ -23,6 +23,14 @@ Proof. exact gen_random_country. Qed.
 Theorem C13_errors : forall cc0 reg pins ci bi draws x,
   random_bban' cc0 reg pins ci bi draws = Err x -> x = EGenerateRandomOverflow \/ x = EInvalidCountryCode.
 Proof. exact gen_random_errors. Qed.
+
+(* ... and no exception from outside the library's family (given the 100 draws the retry loop may ask rstr for) *)
+Theorem C13_library_errors_only : forall cc0 reg pins ci bi draws c,
+  (forall k v, In (k, v) pins -> cleaned the_env v = true) ->
+  (forall d, In d draws -> cleaned the_env (upper the_env d) = true) ->
+  (100 <= List.length draws)%nat ->
+  random_bban' cc0 reg pins ci bi draws <> Crash c.
+Proof. exact gen_random_total. Qed.
 
 (* for a country with published positions, clean pins and clean draws: the BBAN has the country's length, is clean
    text, and every pinned component of its field's width - other than the computed check-digit field - is unchanged *)
@@ -58,6 +66,7 @@ Proof. intros. subst. reflexivity. Qed.
 Print Assumptions C13_valid.
 Print Assumptions C13_country.
 Print Assumptions C13_errors.
+Print Assumptions C13_library_errors_only.
 Print Assumptions C13_pins.
 Print Assumptions C13_iban_pins.
 
